@@ -693,7 +693,7 @@ LIVE = ("explore.conn", "explore.server", "explore.file", "explore.date", "ims.d
 TROUBLE = {}          # id -> (component, kind, message) of the live cases the harness could not execute (no verdict)
 
 
-def harness_trouble(c, i):
+def is_trouble(c, i):
     """(L (N 93) msg): the harness could not do ITS part (no socket, no server, no answer within 30 s on a busy machine) after
     three attempts.  Not a verdict: counted and named in the evidence; too many of them fail the run as a harness error."""
     if c.comp in LIVE and i.startswith("(L (N 93)"):
@@ -750,7 +750,7 @@ def out_of_domain(c, i):
     if c.comp in LIVE:
         N_LIVE[0] += 0 if c.id in SEEN_LIVE else 1
         SEEN_LIVE.add(c.id)
-    return i.startswith("(L (N 96)") or bool(c.meta.get("ood")) or harness_trouble(c, i)
+    return i.startswith("(L (N 96)") or bool(c.meta.get("ood")) or is_trouble(c, i)
 
 
 def spec_ok(c, i, s):
